@@ -472,6 +472,7 @@ func runC06(c *core.Ctx, o Options) {
 		}
 	}
 	s.checkEventMapping("M1", map[string]string{"SuccessfulLogged": "EventLogon"})
+	c.RuleMin = map[string]int{"M1": 3, "T1": 6, "T2": 4, "T3": 1, "T4": 1, "T5": 2}
 	c.MinObl = 17
 }
 
